@@ -1378,3 +1378,221 @@ func ruleASG4(c *Ctx) {
 		c.Check(n >= 1 && ok && okRet, "DataContext.Get / returns ObjectStore[key]", p.Pos(m.Pos()), "lookup keyed by the key parameter", "Get does not return what is stored in the context's own ObjectStore under exactly the given key")
 	}
 }
+
+func init() {
+	register("ASG-5", "value nodes are views: apart from constructors and AppendValue no method of a data back end stores into the node", 40, ruleASG5)
+	register("ASG-6", "an array selector is converted by an operation that fails for a value that is not an integer", 3, ruleASG6)
+}
+
+// ASG-5: a GoValueNode / JSONValueNode is re-derived from the fact on every evaluation (Variable.Evaluate goes through
+// GetChildNodeBy* each time the working memory has forgotten the value). A node that remembers children or values
+// it handed out serves them again after the fact was written through another path.
+func ruleASG5(c *Ctx) {
+	p := c.P
+	for _, typ := range []string{"GoValueNode", "JSONValueNode"} {
+		named := p.Named("model", typ)
+		if named == nil {
+			c.AnchorLost("model." + typ)
+			continue
+		}
+		ms := p.SSA.MethodSets.MethodSet(types.NewPointer(named))
+		for i := 0; i < ms.Len(); i++ {
+			fn := p.SSA.MethodValue(ms.At(i))
+			if fn == nil || fn.Blocks == nil || fn.Synthetic != "" {
+				continue
+			}
+			key := fmt.Sprintf("%s.%s keeps nothing in the node", typ, fn.Name())
+			ws := receiverRootedWrites(fn)
+			if len(ws) == 0 {
+				c.OK(key, p.Pos(fn.Pos()), "no store through the receiver")
+				continue
+			}
+			if fn.Name() == "AppendValue" {
+				c.OK(key, p.Pos(fn.Pos()), "AppendValue replaces the node's slice header by the appended slice (the one write a view needs)")
+				continue
+			}
+			c.Fail(key, p.InstrPos(ws[0]), "the method stores into its own node (a cache of children or values): what it remembers is served again after the fact was written through another path, so a re-evaluated condition still reads the old value")
+		}
+	}
+}
+
+// ASG-6: reflect.Value.Int() panics for every kind but the signed integers, which is how a string or bool used as an
+// array index becomes a reported failure (the panic is contained by ERR-1). A conversion helper that falls through to
+// a default index turns the type error into a silent access to element 0.
+func ruleASG6(c *Ctx) {
+	p := c.P
+	n := 0
+	for _, fn := range p.ModuleFuncs() {
+		if fnPkgShort(fn) != "ast" || strings.HasSuffix(p.Pos(fn.Pos()), "_test.go") {
+			continue
+		}
+		for _, ci := range callsIn(fn) {
+			name := calleeName(ci)
+			if !(strings.HasSuffix(name, ".GetChildNodeByIndex") || strings.HasSuffix(name, ".SetArrayValueAt") || strings.HasSuffix(name, ".GetArrayValueAt")) {
+				continue
+			}
+			args := ci.Common().Args
+			if len(args) < 1 {
+				continue
+			}
+			idx := args[0]
+			if !ci.Common().IsInvoke() && len(args) >= 2 {
+				idx = args[1]
+			}
+			n++
+			key := fmt.Sprintf("%s / index handed to %s", fnName(fn), name[strings.LastIndex(name, ".")+1:])
+			ok, why := failingIntConversion(idx, 0)
+			c.Check(ok, key, p.InstrPos(ci.(ssa.Instruction)), "int(selector.Int()): panics (reported) for a non-integer selector", why)
+		}
+	}
+	if n == 0 {
+		c.Fail("array access sites in package ast", "-", "no GetChildNodeByIndex / SetArrayValueAt call found (anchor lost)")
+	}
+}
+
+// failingIntConversion: every way v is produced goes through (reflect.Value).Int/Uint, or through a module helper all of
+// whose returns do (or carry a non-nil error).
+func failingIntConversion(v ssa.Value, depth int) (bool, string) {
+	if depth > 4 {
+		return false, "conversion too deeply nested"
+	}
+	v = unspill(v)
+	switch x := v.(type) {
+	case *ssa.Convert:
+		return failingIntConversion(x.X, depth+1)
+	case *ssa.ChangeType:
+		return failingIntConversion(x.X, depth+1)
+	case *ssa.Phi:
+		for _, e := range x.Edges {
+			if ok, why := failingIntConversion(e, depth+1); !ok {
+				return false, why
+			}
+		}
+		return len(x.Edges) > 0, "empty merge"
+	case *ssa.Extract:
+		return failingIntConversion(x.Tuple, depth+1)
+	case *ssa.Call:
+		name := calleeName(x)
+		if name == "(reflect.Value).Int" || name == "(reflect.Value).Uint" || name == "(reflect.Value).Float" {
+			return true, ""
+		}
+		callee := x.Call.StaticCallee()
+		if callee != nil && callee.Blocks != nil && fnInModule(callee) {
+			for _, r := range returnsOf(callee) {
+				if returnsNonNilError(r) {
+					continue
+				}
+				if len(r.Results) == 0 {
+					return false, "helper " + fnName(callee) + " returns nothing"
+				}
+				if ok, why := failingIntConversion(r.Results[0], depth+1); !ok {
+					return false, "helper " + fnName(callee) + " can return an index that does not come from Int()/Uint(): " + why
+				}
+			}
+			return true, ""
+		}
+		return false, "index produced by " + name
+	case *ssa.Const:
+		return false, "a constant index (" + x.String() + ") on some path: a selector of the wrong kind silently addresses that element instead of failing"
+	}
+	return false, fmt.Sprintf("index produced by %T", v)
+}
+
+func init() {
+	register("OPT-16", "a fact method is handed to reflect without an arity pre-check that contradicts reflect's own rule for variadic methods", 1, ruleOPT16)
+}
+
+// OPT-16: reflect.Value.Call accepts len(args) >= NumIn()-1 for a variadic method (the variadic part may be empty) and
+// exactly NumIn() otherwise. The documentation promises "zero or more values" for variadic fact methods and built-ins.
+func ruleOPT16(c *Ctx) {
+	p := c.P
+	fn := p.Method("model", "GoValueNode", "CallFunction")
+	if fn == nil {
+		c.AnchorLost("(*model.GoValueNode).CallFunction")
+		return
+	}
+	var callSite *ssa.Call
+	for _, ci := range callsIn(fn) {
+		if call, ok := ci.(*ssa.Call); ok && calleeName(call) == "(reflect.Value).Call" {
+			callSite = call
+		}
+	}
+	if callSite == nil {
+		c.Fail("GoValueNode.CallFunction / reflect call", p.Pos(fn.Pos()), "no (reflect.Value).Call (anchor lost)")
+		return
+	}
+	isNumIn := func(v ssa.Value) bool {
+		call, ok := stripConv(v).(*ssa.Call)
+		return ok && strings.HasSuffix(calleeName(call), ".NumIn")
+	}
+	isLenArgs := func(v ssa.Value) bool {
+		call, ok := stripConv(v).(*ssa.Call)
+		if !ok {
+			return false
+		}
+		bi, ok := call.Call.Value.(*ssa.Builtin)
+		return ok && bi.Name() == "len"
+	}
+	bad := ""
+	nChecks := 0
+	for _, b := range fn.Blocks {
+		for _, in := range b.Instrs {
+			bo, ok := in.(*ssa.BinOp)
+			if !ok {
+				continue
+			}
+			var other ssa.Value
+			switch {
+			case isLenArgs(bo.X):
+				other = bo.Y
+			case isLenArgs(bo.Y):
+				other = bo.X
+			default:
+				continue
+			}
+			minusOne := false
+			if sub, ok := stripConv(other).(*ssa.BinOp); ok && sub.Op == token.SUB && isNumIn(sub.X) {
+				if k, ok := constInt(sub.Y); ok && k == 1 {
+					minusOne = true
+				}
+			}
+			if !isNumIn(other) && !minusOne {
+				continue
+			}
+			nChecks++
+			// under the variadic edge the bound must be NumIn()-1
+			underVariadic := edgesDominate(fn, bo, func(bb *ssa.BasicBlock, si int) bool {
+				iff, isIf := bb.Instrs[len(bb.Instrs)-1].(*ssa.If)
+				if !isIf {
+					return false
+				}
+				kind, sTrue, okc := condOn(iff.Cond, func(v ssa.Value) bool {
+					call, ok := v.(*ssa.Call)
+					return ok && strings.HasSuffix(calleeName(call), ".IsVariadic")
+				})
+				return okc && kind == "bool" && si == sTrue
+			})
+			if underVariadic && !minusOne {
+				bad = "under IsVariadic() the argument count is compared with NumIn() instead of NumIn()-1 at " + p.InstrPos(bo)
+			}
+			if !underVariadic && bo.Op != token.NEQ && bo.Op != token.EQL && !minusOne {
+				// a `<` / `>=` test against NumIn() that is not restricted to the non-variadic case rejects empty variadic parts
+				notVariadic := edgesDominate(fn, bo, func(bb *ssa.BasicBlock, si int) bool {
+					iff, isIf := bb.Instrs[len(bb.Instrs)-1].(*ssa.If)
+					if !isIf {
+						return false
+					}
+					kind, sTrue, okc := condOn(iff.Cond, func(v ssa.Value) bool {
+						call, ok := v.(*ssa.Call)
+						return ok && strings.HasSuffix(calleeName(call), ".IsVariadic")
+					})
+					return okc && kind == "bool" && si == 1-sTrue
+				})
+				if !notVariadic {
+					bad = "the argument count is compared with NumIn() for variadic methods too at " + p.InstrPos(bo)
+				}
+			}
+		}
+	}
+	c.Check(bad == "", "GoValueNode.CallFunction / arity pre-checks agree with reflect's rule", p.InstrPos(callSite), fmt.Sprintf("%d arity pre-check(s); reflect's own check applies and its panic is contained", nChecks), bad+": a variadic fact method or built-in called with only its fixed arguments (documented: zero or more values) is rejected")
+}
